@@ -207,8 +207,15 @@ def e2e_part(name, profiles, pairs, tags, nontrivial, n_quick=120, n_thorough=12
     return _check
 
 
-def e2e_prop(name, profiles, pairs, tags, nontrivial, rule, **kw):
-    return register(name, rule, [e2e_part(name, profiles, pairs, tags, nontrivial, **kw)])
+def e2e_prop(name, profiles, pairs, tags, nontrivial, rule, more_parts=(), **kw):
+    return register(name, rule, [e2e_part(name, profiles, pairs, tags, nontrivial, **kw)] + list(more_parts))
+
+
+def _hooks_part(which):
+    def part(rep, tier):
+        from . import c04tier
+        return c04tier.run_c04(rep, tier, which)
+    return part
 
 
 def _pairs_plan(ur):
@@ -246,10 +253,14 @@ e2e_prop("C03", P_CLEAN + P_DEFAULT + P_NAMES + P_LONG, _pairs_c03, {"C03"},
          lambda ur: any(p for p, a, b in ur.run_pairs),
          "generated programs (1-3 injectors, 3-9 struct types, providers with every mix of cleanup/error results, struct/"
          "value/field steps interleaved) run under every single-failure plan, alternating with success runs; "
-         "non-trivial = injector executed under at least one failing plan")
+         "hook-type programs (see C04) under every single-failure plan; "
+         "non-trivial = injector executed under at least one failing plan", more_parts=[_hooks_part("C03")])
 e2e_prop("C04", P_CLEAN + P_DEFAULT + P_NAMES + P_LONG, _pairs_c04, {"C04"},
          lambda ur: ur.u.inj["cleanup"] and (ur.impl or "").startswith("ok"),
-         "same programs, success plans; non-trivial = accepted injector with a cleanup result")
+         "same programs, success plans; hook-type programs: 3-7 chained providers of named types of the injector's package whose "
+         "derived local names meet the cleanup / error variables (type Cleanup func(), Err, Cleanup2 ...), so that a mix-up is "
+         "type-correct and silent; the aggregated cleanup must release exactly the acquired ones, newest first, and call no hook; "
+         "non-trivial = accepted injector with a cleanup result", more_parts=[_hooks_part("C04")])
 e2e_prop("C01", P_DEFAULT + P_CLEAN, _pairs_plan, {"C01"},
          lambda ur: (ur.impl or "").startswith("ok"),
          "generated multi-package programs; every accepted package is compiled (go build) and every injector is "
